@@ -39,6 +39,9 @@ PALETTE = [
     ["p4", "black,standout", "brown", "standout,bold", "h9", "#0f0"],
     ["p5", "dark cyan,italics,strikethrough", "light cyan", "italics", "#0ff,blink", "g93"],
     ["p6", "light magenta", "black", "underline", "#ff8800", "#0000d7"],
+    # an empty string is a value ("the terminal's default colour"), only None means "use the 16-colour setting"
+    ["p7", "black", "light gray", None, "", "g85"],
+    ["p8", "white", "dark blue", "bold", "#f80", ""],
 ]
 SPEC_ATTRS = [
     ["light green", "dark magenta", 16],
@@ -234,7 +237,7 @@ class _Run:
                     return AttrSpec(mono or "default", "default", 1)
                 if c == 16:
                     return AttrSpec(fg, bg, 16)
-                return AttrSpec(fgh or fg, bgh or bg, c)
+                return AttrSpec(fg if fgh is None else fgh, bg if bgh is None else bgh, c)
         return None
 
     def palette_desc(self, name: str):
@@ -249,7 +252,7 @@ class _Run:
                     return (mono or "default", "default", 1)
                 if c == 16:
                     return (fg, bg, 16)
-                return (fgh or fg, bgh or bg, c)
+                return (fg if fgh is None else fgh, bg if bgh is None else bgh, c)
         return None
 
     def resolve(self, key) -> Attr:
